@@ -45,6 +45,85 @@ def encode(t, h, n):
     return furl.encode_furl(t, h, n)
 
 
+def _fresh(s):
+    """an equal but not identical str / bytes object"""
+    if isinstance(s, bytes):
+        return bytes(bytearray(s))
+    return "".join(list(s)) if len(s) != 1 else (s + s)[:1]
+
+
+MUTATIONS = ("append", "clear", "reverse-sort", "slice-assign", "sturdyref-hints", "tubref-locations")
+
+
+def history_probe(s, mutation, as_bytes=False):
+    """decode s, change the hint list of THAT result (or of a SturdyRef / TubRef made from s), decode an
+    equal string again: the second result must be what a first decode gives, must not share its list
+    with the first, and must re-encode to the same FURL.  -> list of problems (empty = fine)"""
+    import copy
+    from foolscap import furl as F
+    from foolscap.referenceable import SturdyRef
+    subj = s.encode("utf-8") if as_bytes else s
+    problems = []
+    try:
+        first = F.decode_furl(_fresh(subj))
+    except Exception as e1:
+        try:
+            F.decode_furl(_fresh(subj))
+        except Exception as e2:
+            if type(e1) is not type(e2):
+                problems.append("first decode raised %s, second %s" % (type(e1).__name__, type(e2).__name__))
+            return problems
+        return ["first decode raised %s, the second one succeeded" % type(e1).__name__]
+    expected = (first[0], list(first[1]), first[2])
+    expected_furl = F.encode_furl(*expected)
+    victim = first[1]
+    sr = None
+    if mutation in ("sturdyref-hints", "tubref-locations"):
+        sr = SturdyRef(_fresh(subj))
+        victim = sr.locationHints if mutation == "sturdyref-hints" else sr.getTubRef().getLocations()
+        if victim != expected[1]:
+            problems.append("SturdyRef(f) has hints %r, decode_furl(f) gave %r" % (victim, expected[1]))
+    if mutation == "append":
+        victim.append("tcp:injected.example:1")
+    elif mutation == "clear":
+        del victim[:]
+    elif mutation == "reverse-sort":
+        victim.append("zzz:9")
+        victim.sort(reverse=True)
+    elif mutation == "slice-assign":
+        victim[:] = [h for h in victim if h.startswith("tcp:")] + ["tcp:only.example:2"]
+    else:
+        victim[:] = victim[:1] + ["tor:injected.onion:80"]
+    for label, again_subj in (("an equal string", _fresh(subj)), ("the same string object", subj),
+                              ("the other string type", _fresh(s if as_bytes else s.encode("utf-8")))):
+        try:
+            second = F.decode_furl(again_subj)
+        except Exception as e:
+            problems.append("after %s of an earlier result, decoding %s raised %s" % (mutation, label, type(e).__name__))
+            continue
+        if (second[0], list(second[1]), second[2]) != expected:
+            problems.append("after %s of an earlier result, decoding %s gives hints %r instead of %r"
+                            % (mutation, label, second[1], expected[1]))
+        if second[1] is victim or second[1] is first[1]:
+            problems.append("decoding %s returns the very list object of an earlier result" % label)
+        try:
+            re_enc = F.encode_furl(*second)
+        except Exception as e:
+            re_enc = "<%s>" % type(e).__name__
+        if re_enc != expected_furl:
+            problems.append("after %s, re-encoding the decode of %s gives %r, not %r" % (mutation, label, re_enc, expected_furl))
+    sr2 = SturdyRef(_fresh(subj))
+    if sr2.locationHints != expected[1] or sr2.getTubRef().getLocations() != expected[1]:
+        problems.append("a new SturdyRef for the same FURL has hints %r (its TubRef %r), the FURL says %r"
+                        % (sr2.locationHints, sr2.getTubRef().getLocations(), expected[1]))
+    if sr is not None and (sr2.locationHints is sr.locationHints):
+        problems.append("two SturdyRefs made from equal FURLs share one hint list")
+    a, b = F.decode_furl(_fresh(subj)), F.decode_furl(_fresh(subj))
+    if a[1] is b[1]:
+        problems.append("two decodes of equal strings return the same list object")
+    return problems
+
+
 class _SamEndpoint(object):
     pass
 
